@@ -75,14 +75,15 @@ ASSUMPTIONS = [
 ]
 OPEN = [
     "still oracle-only: MULTILEADER context data, DIMSTYLE / VIEWPORT name<->handle conversion, DIMENSION override XDATA, ACIS data, "
-    "GEODATA, MTEXT columns / embedded objects, LTYPE pattern tags, "
+    "GEODATA, MTEXT columns of DXF < R2018 (XDATA + linked MTEXT entities; the R2018 embedded object is modelled), "
     "XRECORD / TagList payloads, underlay boundary paths; everything load_dxf_attribs does after the generic loader calls except the "
     "payload loaders of Model/Payload.lean",
     "attributes AND payload of any size in one theorem exist for SPLINE, MESH, MTEXT, LEADER, IMAGE, HATCH, MPOLYGON (…_entity_roundtrip "
     "over the stripped plan = the traced plan without the payload tags of the traced instance; schemas_wf_stripped: wfPlan holds for "
     "the stripped plan of every registered class); for DICTIONARY, GROUP, MLINE the namespace is independent of the payload at the level of fastLoad "
     "(dict/group/mline_entity_roundtrip), for VIEWPORT (frozen layers) payload and attribute theorems are still separate statements joined by their interfaces (payload_side_conditions)",
-    "entity_roundtrip joins attribute plan and envelope by an abstract tag encoder (text form of a typed tag is C03's subject)",
+    "entity_roundtrip joins attribute plan and envelope by an abstract tag encoder; entity_bytes_roundtrip puts C03's concrete BINARY "
+    "codec under the envelope (the map from typed tags to their text form stays a parameter; an ASCII whole-file theorem does not exist in C03)",
     "doc_roundtrip_skeleton is about handles, order, owners, block/layout tables (Model/Doc.lean); the content of each entity is the "
     "subject of the entity level theorems; table entries and OBJECTS section ordering are covered by the oracle only",
     "hatch arcs/ellipses with clockwise orientation come back with 360-(360-angle) (canonEdge): exact only when the double "
@@ -1066,6 +1067,9 @@ PAYLOAD_FUNCS = [
     ("mline_vertex_load", "src/ezdxf/entities/mline.py", "MLineVertex.load"),
     ("image_export_boundary", "src/ezdxf/entities/image.py", "ImageBase.export_boundary_path"),
     ("image_load_boundary", "src/ezdxf/entities/image.py", "ImageBase.load_boundary_path"),
+    ("mtext_export_embedded", "src/ezdxf/entities/mtext.py", "MText.export_embedded_object"),
+    ("mtext_load_columns_embedded", "src/ezdxf/entities/mtext.py", "load_columns_from_embedded_object"),
+    ("ltype_export_r12", "src/ezdxf/entities/ltype.py", "LinetypePattern.export_r12_dxf"),
     ("leader_export_vertices", "src/ezdxf/entities/leader.py", "Leader.export_vertices"),
     ("leader_load_vertices", "src/ezdxf/entities/leader.py", "Leader.load_vertices"),
     ("group_export", "src/ezdxf/entities/dxfgroups.py", "DXFGroup.export_group"),
@@ -1171,6 +1175,21 @@ def regenerate(ctx):
     # C02's regenerate: run it here too, so that C01 builds on a fresh tree and follows the current source
     import importlib
 
+    # Props section 9 (entity_bytes_roundtrip) is stated over C03's binary tag codec (Props/C03.lean, Gen/TagTables.lean):
+    # regenerate its tables as well, same guard
+    try:
+        importlib.import_module("props.c03" if __name__.startswith("props.") else "c03").regenerate(ctx)
+    except Exception as ex:  # noqa
+        cls = type(ctx.broken[0]) if getattr(ctx, "broken", None) else None
+        if cls is None:
+            for name in ("runner", "harness.runner"):
+                try:
+                    cls = importlib.import_module(name).Broken
+                    break
+                except Exception:  # noqa
+                    continue
+        ctx.broken.append(cls("translation", "C03 generator (harness/props/c03.py regenerate -> Gen/TagTables.lean, used by Props/C01 section 9)",
+                              f"{type(ex).__name__}: {str(ex)[:500]}"))
     c02 = importlib.import_module("props.c02" if __name__.startswith("props.") else "c02")
     try:
         c02.regenerate(ctx)
@@ -1843,8 +1862,30 @@ def doc_snapshot(doc):
     for e in doc.entitydb.values():
         if e.is_alive and e.dxf.handle in reach and hasattr(e, "all_sub_entities"):
             reach.update(x.dxf.handle for x in e.all_sub_entities() if x is not None and x.is_alive)
+    # An entity that is alive but unlinked from every layout is not written, and neither is anything it owns: its
+    # extension dictionary and the objects in it (OBJECTS export since fix 42c45156c; before, they were written with a dangling
+    # owner).  Determined here by walking the owner handles through the entity database (independent of the export's helper).
+    from ezdxf.entities import DXFGraphic
+
+    db = doc.entitydb
+    owned_by_unlinked = set()
+    for h in objects:
+        cur, seen = db.get(h), set()
+        while cur is not None and cur.is_alive:
+            owner = cur.dxf.get("owner")
+            if owner is None:
+                if isinstance(cur, DXFGraphic):
+                    owned_by_unlinked.add(h)
+                break
+            if owner in seen:
+                break
+            seen.add(owner)
+            cur = db.get(owner)
+    reach -= owned_by_unlinked
     for h, b in ents.items():
         b["_reach"] = h in reach
+        if h in owned_by_unlinked:
+            b["_unlinked_owner"] = True
         if b["type"] == "GROUP" and b["payload"] is not None:
             # groups drop members that left the document or live in a block definition (dxfgroups._has_valid_owner)
             inlayouts = {x for k, hs in spaces.items() if k.startswith("L:") for x in hs}
@@ -2017,7 +2058,8 @@ def compare_docs(ctx, stream, before, after, ver: str, fmt: str, rep: dict, clas
         t = b["type"]
         a = after["ents"].get(h)
         if not b.get("_reach", True):
-            ctx.hist(stream, "entity not linked to the document structure")
+            ctx.hist(stream, "object owned by an unlinked entity (not written)" if b.get("_unlinked_owner")
+                     else "entity not linked to the document structure")
             continue
         if a is None:
             if minv.get(t, "AC1009") > ver:
@@ -2061,6 +2103,11 @@ def compare_docs(ctx, stream, before, after, ver: str, fmt: str, rep: dict, clas
             ctx.fail(f"attr/{t}/{vcls}/{name}", f"{label}{VNAME[ver]} {fmt}: {t}(#{h}).dxf.{name} = {v!r:.80} before, {v2!r:.80} after reload", rep)
             nfail += 1
         for part in ("payload", "xdata", "appdata", "reactors", "xdict"):
+            if ver == "AC1009" and part in ("appdata", "reactors", "xdict") and b[part] is not None and a[part] is None:
+                # DXFEntity.export_base_class writes application data, extension dictionary and reactors for DXF R2000+
+                # only (DXF R12 has no 102 groups and no OBJECTS section): data the chosen version cannot represent
+                ctx.hist(stream, f"{part} not represented in DXF R12")
+                continue
             if b[part] != a[part]:
                 ctx.fail(f"{part}/{t}/{VNAME[ver] if ver == 'AC1009' else 'R2000+'}",
                          f"{label}{VNAME[ver]} {fmt}: {t}(#{h}) {part} differs at {first_diff(b[part], a[part])}", rep)
@@ -2680,6 +2727,68 @@ def x5_cases(ctx):
         cases.append((f"pfrozen|{tbl}|{';'.join(_cps(n) for n in names)}|{ptags(tags)}",
                       ptags(body) + "|" + ",".join(_cps(n) for n in v2.frozen_layers) + "|" + ptags(rest), True))
         ctx.hist(S, "frozen layers" + ("/damaged" if mut else ""))
+
+    # ---- MTEXT columns in the embedded object (DXF R2018)
+    from ezdxf.entities.mtext import MTextColumns, ColumnType, load_columns_from_embedded_object
+    from ezdxf.entities import MText as _MT
+
+    for _ in range(ctx.n(150, 1500)):
+        mt = _MT()
+        cols = MTextColumns()
+        cols.column_type = rng.choice([ColumnType.STATIC, ColumnType.DYNAMIC])
+        cols.auto_height = rng.random() < 0.5
+        cols.reversed_column_flow = rng.random() < 0.3
+        nh = rng.choice([0, 0, 2, 3])
+        cols.heights = [rng.choice([1.0, 2.5, 0.0, 10.0]) for _ in range(nh)]
+        cols.count = rng.choice([1, 2, 3]) if not (nh == 0 and rng.random() < 0.3) else 0
+        cols.defined_height, cols.width, cols.gutter_width, cols.total_height = f(), f(), f(), f()
+        # without heights a zero count is recomputed from the widths (a double computation the model takes as a
+        # parameter): keep total_width at 0.0 there, the recomputation then leaves the count at 0
+        dyn_auto = cols.column_type == ColumnType.DYNAMIC and cols.auto_height
+        cols.total_width = 0.0 if (nh == 0 and (cols.count == 0 or dyn_auto)) else f()
+        mt._columns = cols
+        mt.dxf.text_direction, mt.dxf.insert, mt.dxf.width = (1.0, 0.0, 0.0), (f(), f(), f()), rng.choice([0.0, 2.5, 10.0])
+        body = collect_tags(lambda w: mt.export_embedded_object(w))
+        has = [rng.random() < 0.5 for _ in range(3)]
+        tags, mut = mutate_tags(rng, body, [DXFTag(46, 3.0), DXFTag(72, 2), DXFTag(73, 1), DXFTag(71, 2), DXFTag(44, 1.0), DXFVertex(10, (0.0, 1.0, 0.0))], p=0.3)
+        if mut and not any(t.code == 46 for t in tags):
+            tags = [t for t in tags if t.code != 42] + [DXFTag(42, 0.0)]
+        m2 = _MT()
+        if has[0]:
+            m2.dxf.text_direction = (0.0, 1.0, 0.0)
+        if has[1]:
+            m2.dxf.insert = (9.0, 9.0, 9.0)
+        if has[2]:
+            m2.dxf.width = 7.0
+        before = (m2.dxf.get("text_direction"), m2.dxf.get("insert"), m2.dxf.get("width"))
+        try:
+            c2 = load_columns_from_embedded_object(m2.dxf, Tags(tags))
+        except ValueError:
+            continue
+        o = lambda was, now, fn: "N" if was is not None else ("N" if now is None else fn(now))
+        resp = (f"{int(c2.column_type)},{int(c2.count)},{'true' if c2.auto_height else 'false'},{'true' if c2.reversed_column_flow else 'false'},"
+                f"{_fb(c2.defined_height)},{_fb(c2.width)},{_fb(c2.gutter_width)},{_fb(c2.total_width)},{_fb(c2.total_height)},"
+                f"[{','.join(_fb(h) for h in c2.heights)}]|{o(before[0], m2.dxf.get('text_direction'), _p3)}|{o(before[1], m2.dxf.get('insert'), _p3)}|"
+                f"{o(before[2], m2.dxf.get('width'), _fb)}")
+        cases.append((f"pcols|{int(has[0])}|{int(has[1])}|{int(has[2])}|" + ptags(tags), resp, True))
+        ctx.hist(S, "mtext columns" + ("/damaged" if mut else ""))
+
+    # ---- LTYPE pattern tags written for DXF R12
+    from ezdxf.entities.ltype import LinetypePattern
+
+    for _ in range(ctx.n(120, 1200)):
+        es = [rng.choice([0.5, -0.25, 0.0, 1.0, -2.5]) for _ in range(rng.randint(0, 5))]
+        ptn = [DXFTag(72, 65), DXFTag(73, len(es)), DXFTag(40, float(sum(abs(x) for x in es)))]
+        for x in es:
+            ptn += [DXFTag(49, x), DXFTag(74, rng.choice([0, 0, 2]))]
+            if ptn[-1].value == 2:
+                ptn += [DXFTag(75, 0), DXFTag(340, "1F"), DXFTag(46, 1.0), DXFTag(50, 0.0), DXFTag(44, 0.0), DXFTag(45, 0.0), DXFTag(9, "TXT")]
+        tags, mut = mutate_tags(rng, ptn, [DXFTag(49, 3.0), DXFTag(40, 9.0), DXFTag(74, 0), DXFTag(73, 7)], p=0.4)
+        if not any(t.code == 40 for t in tags) and not any(t.code == 49 for t in tags):
+            tags.append(DXFTag(49, 1.0))  # `sum()` of no element is the int 0: not a value of the group code class
+        out = collect_tags(lambda w: LinetypePattern(Tags(tags)).export_r12_dxf(w))
+        cases.append(("pltr12|" + ptags(tags), ptags(out), True))
+        ctx.hist(S, "ltype r12" + ("/damaged" if mut else ""))
 
     # ---- seed points, pattern lines
     for _ in range(ctx.n(150, 1500)):
